@@ -18,7 +18,7 @@ func init() {
 			Property: "C03",
 			Rule: "I: every initial store (v in {none, number, boolean, string} x w in {none, number, string}) x every statement (set/declare x {$v,$w} x {=,+=,-=,*=,/=,%=} x right-hand sides {2, 0, true, \"a\", other variable, unknown variable, ill-typed expression}) x every single host write before it; " +
 				"H: every history of <=3 (quick) / 4 (thorough) statements over a reduced alphabet plus reads, with up to 1 (quick) / 2 (thorough) host writes between steps; L: every compound assignment executed repeatedly in a jump loop; " +
-				"each on a harness-implemented recording storer and on a recording wrapper around the library's in-memory storer; after every Next: GetValues and GetValue of every name against the model store, the exact Set*/Clear call log against the model's writes; non-trivial = every case (each runs at least one assignment)",
+				"each on a harness-implemented recording storer and on a recording wrapper around the library's in-memory storer; after every Next: GetValues and GetValue of every name against the model store, one type per name, and every successful assignment reached the host's storer; non-trivial = every case (each runs at least one assignment)",
 			StatesMean:  "(history, trace prefix) pairs; transitions = real Next calls and host writes",
 			Assumptions: []string{"small-scope hypothesis", "histories are compared up to the first failing statement (what follows an error is not fixed by the property)"},
 		},
@@ -125,14 +125,13 @@ func c03Walk(ctx *report.Ctx, c *explore.Chooser, partName string, p *yc.Program
 				// the pre-population of the storer by the harness went through the logged calls
 				initCalls = len(init)
 			}
+			// the exact sequence of mutating calls is not demanded by the property (an implementation may
+			// write twice, or re-write an unchanged value): only their effect is compared, by CompareStore.
+			// A statement that succeeds must however have reached the storer the host supplied: at least
+			// one mutating call per successful assignment.
 			calls := cur.callLog()
-			if len(calls) < initCalls {
-				return "storer call log shorter than the initial population"
-			}
-			got := strings.Join(calls[initCalls:], ";")
-			want := strings.Join(m.Writes, ";")
-			if got != want {
-				return fmt.Sprintf("mutating storer calls issued by the script: expected [%s], got [%s]", want, got)
+			if len(calls)-initCalls < len(m.Writes) {
+				return fmt.Sprintf("%d successful assignments so far, but only %d mutating calls reached the storer supplied by the host", len(m.Writes), len(calls)-initCalls)
 			}
 			// one name, one type: GetValue and GetValues must agree for every name known to either
 			all := cur.GetValues()
